@@ -175,7 +175,7 @@ pub fn run(ctx: &Ctx) {
     let idx: Vec<usize> = (0..grid.len()).collect();
     ctx.note("grid_cases", json!(grid.len()));
     ctx.enumerate("c07.grid", &idx, |i| json!({"index": i}), |i, stats| check_graph(&grid[*i].0, grid[*i].1, stats));
-    let cases = ctx.tier.pick(1500, 40000);
+    let cases = ctx.tier.pick(1500, 400000);
     ctx.search("c07.random", cases, 200, |tape, stats| {
         let (g, mode) = random_case(tape);
         check_graph(&g, mode, stats)
